@@ -300,7 +300,7 @@ pub fn run(cfg: &RunCfg, replay: Option<&str>) -> i32 {
     let r = pr.run_regressions();
     pr.push(r);
     let c = pr.cfg.clone();
-    let r = run_lane(&c, "C13", &Lane { name: "layer-trees", cases: c.cases(500_000, 15_000_000), max_len: 256, sched_len: 0, workers: 0, f: &case_layers });
+    let r = run_lane(&c, "C13", &Lane { name: "layer-trees", cases: c.cases(2_000_000, 30_000_000), max_len: 256, sched_len: 0, workers: 0, f: &case_layers });
     pr.push(r);
     pr.finish()
 }
